@@ -36,6 +36,44 @@ def path_from_parents(fields, q1, q2):
     return list(reversed(out))
 
 
+def has_yield(a):
+    k = a[0]
+    if k == "ret":
+        return a[1][0] == "yield"
+    if k == "prim":
+        return has_yield(a[2])
+    if k == "test":
+        return has_yield(a[2]) or has_yield(a[3])
+    return False
+
+
+def classify_slack_failure(m_eager, q1, s):
+    """name the situation at the failing element (part of the violation key, so that a listed finding stays specific):
+    follows the non-consuming moves the eager machine can make from q1 on symbol s"""
+    seen, todo = set(), [q1]
+    while todo:
+        q = todo.pop()
+        if q in seen or q is None or q >= len(m_eager["states"]):
+            continue
+        seen.add(q)
+        st = m_eager["states"][q]
+        trs = st.get("trans") if st["kind"] == "normal" else [t for _, t in st.get("brs", [])]
+        for t in trs or []:
+            if st["kind"] == "normal" and not (s in t["on"] or 257 in t["on"]):
+                continue
+            if t["fall"]:
+                todo.append(t["tgt"])
+                todo += [x for x in mach.goto_targets(t["acts"])]
+                continue
+            todo += [x for x in mach.goto_targets(t["acts"])]
+            if has_yield(t["acts"]) and t["tgt"] is not None:
+                tgt = m_eager["states"][t["tgt"]]
+                ttrs = tgt.get("trans") if tgt["kind"] == "normal" else [x for _, x in tgt.get("brs", [])]
+                if t["tgt"] in m_eager["acc"] and not m_eager["strict_done"] and all(x["err"] for x in (ttrs or [])):
+                    return "yield-on-completing-transition"
+    return "other"
+
+
 def run(ctx):
     err = mach.ensure_machk()
     if err:
@@ -48,7 +86,7 @@ def run(ctx):
         p = profile(rng)
         ast, src = gen.gen_program(random.Random(rng.getrandbits(48)), p)
         progs.append(("gen%d" % i, src, ["-fyield-support"] if p.yields else []))
-    have_slack = os.path.exists(os.path.join(common.COQ, "Machine", "BBisim.v"))
+    have_slack = os.path.exists(os.path.join(common.COQ, "Machine", "BSearch.v"))
     pairs = []   # (name, variant, src, ref machine, variant machine, kind)
     verdicts = collections.Counter()
     for name, src, flags in progs:
@@ -68,31 +106,106 @@ def run(ctx):
                 ctx.violation("verdict:%s:%s" % (name, " ".join(v)), "program accepted at -O0 but %s with %s: %s" % (r["verdict"], " ".join(v), r["message"][:100]),
                               {"program": src, "flags": v + base, "verdict": r["verdict"], "message": r["message"]})
                 continue
-            pairs.append((name, v, src, m0, r["machines"]["post_optimize"], kind, base))
+            pairs.append((name, v, src, m0, r["machines"]["post_optimize"], kind, base, I))
             # the two machines of ONE compilation (before / after the optimisation loop) localise a failure to the passes
-    tasks = [mach.task_bisim(m0, m1) if kind == "strict" else mach.task_bbisim(m1, m0) for (_, _, _, m0, m1, kind, _) in pairs]
+    tasks = [mach.task_bisim(m0, m1) if kind == "strict" else mach.task_bbisim(m1, m0, I) for (_, _, _, m0, m1, kind, _, I) in pairs]
     results = mach.run_machk(tasks)
     nbad = 0
-    for (name, v, src, m0, m1, kind, base), res in zip(pairs, results):
+    for (name, v, src, m0, m1, kind, base, I), res in zip(pairs, results):
         if res == "ok":
             continue
         nbad += 1
         parts = res.split()
         if parts[0] == "mismatch":
             q1, q2, s = int(parts[1]), int(parts[2]), int(parts[3])
-            path = path_from_parents(parts[4:], q1, q2)
-            ctx.violation("equiv:%s:%s" % (name, " ".join(v)),
+            if kind == "strict":
+                path = path_from_parents(parts[4:], q1, q2)
+            else:
+                par = {}
+                for f in parts[5:]:
+                    child, rest = f.split("<")
+                    parent, sym = rest.split("@")
+                    par.setdefault(child, (parent, int(sym)))
+                path, cur, seen = [], parts[4], set()
+                while cur in par and cur not in seen:
+                    seen.add(cur)
+                    cur, sy = par[cur]
+                    path.append(sy)
+                path.reverse()
+                # in mode R the successor is reached on the same symbol: drop repeated entries caused by it is not needed for a replay hint
+            cls = classify_slack_failure(m1, q1, s) if kind == "slack" else "strict"
+            ctx.violation("equiv:%s:%s:%s" % (cls, " ".join(v), name),
                           "machines compiled with -O0 and with %s are not %s-bisimilar: after input %r the next symbol %d is handled differently (states %d / %d)" % (" ".join(v), kind, path, s, q1, q2),
                           {"program": src, "flags_ref": ["-O0"] + base, "flags_variant": v + base, "input": path + ([s] if s < 256 else []), "then_end_of_input": s == 256,
                            "states": [q1, q2], "broken": "certificate %s" % ("Bisim.dfa_equiv_cert" if kind == "strict" else "BBisim.dfa_slack_cert")})
         else:
             ctx.violation("equiv-check:%s:%s" % (name, " ".join(v)), "checker result %s" % res[:80],
                           {"program": src, "flags_variant": v + base, "broken": "certificate"}, found_input=False)
+    # C-level differential runs: binaries of the same program built at -O0, -O2 and -O3 under one (random) representation
+    # option set must show the same hooks (with output snapshots), the same yield / finish codes and the same final outputs
+    from concurrent.futures import ThreadPoolExecutor
+    import cdrv, shutil, re as _re
+    REPR = [[], ["-fallocate-str-space-dynamic"], ["-fallocate-str-space-dynamic-on-demand"], ["-fallocate-str-space-dynamic-on-demand", "-fdelete-string-free-memory"],
+            ["-fstrings-as-u8"], ["-findirect-start-ptr"], ["-fhook-per-state"]]
+    cjobs = []
+    gens = [(n, s, f) for n, s, f in progs if n.startswith("gen")]
+    rng.shuffle(gens)
+    for name, src, flags in gens[:30 if quick else 300]:
+        base = [f for f in flags if not f.startswith("-O")] + rng.choice(REPR)
+        Ps = [cdrv.prepare_compile(src, [lvl] + base, max_states=120) for lvl in ("-O0", "-O2", "-O3")]
+        if all(P["ok"] for P in Ps):
+            cjobs.append((len(cjobs), name, src, Ps, rng.getrandbits(32)))
+
+    def cjob(a):
+        idx, name, src, Ps, seed = a
+        r2 = random.Random(seed)
+        built = [cdrv.prepare_build(P, os.path.join(common.BUILD, "c05", "p%04d_%d" % (idx, i))) for i, P in enumerate(Ps)]
+        res = {"name": name, "src": src, "viol": None, "runs": 0}
+        if all(P["ok"] for P in built):
+            special = set(cdrv.special_bytes(built[0]["I"]))
+            inputs = [cdrv.random_input(built[0]["m"], r2, maxlen=r2.choice([4, 10, 25]), special=special) for _ in range(8)]
+            inputs = [i for i in inputs if i]
+            obs = []
+            for P in built:
+                cmds = [P["cp"].init_vals()] + ["run 1 %d %s 0" % (len(i), " ".join(map(str, i))) for i in inputs]
+                rc, cl, cerr = cdrv.run_c(P["wd"], "\n".join(cmds) + "\n", timeout=60)
+                o = []
+                for blk in cdrv.split_blocks(cl):
+                    ob = cdrv.observation(blk, True)
+                    hooks = _re.sub(r"@\d+\[", "@[", ob[0]) if isinstance(ob[0], str) else ob[0]
+                    codes = tuple(c for c, _ in ob[1] if c not in ("DONE",)) if len(ob) > 2 else ()
+                    o.append((hooks, codes, ob[2] if len(ob) > 2 else None))
+                obs.append((rc, o))
+            res["runs"] = len(inputs) * 3
+            for k in (1, 2):
+                if obs[k][0] != obs[0][0] or len(obs[k][1]) != len(obs[0][1]):
+                    res["viol"] = {"kind": "binary-exit", "flags": built[k]["flags"], "rc": obs[k][0]}
+                    break
+                for inp, a, b in zip(inputs, obs[0][1], obs[k][1]):
+                    norm = lambda o: json.dumps(o).replace(":TN", ":T1")
+                    if norm(a) != norm(b):
+                        res["viol"] = {"kind": "level-dependence", "flags_a": built[0]["flags"], "flags_b": built[k]["flags"], "input": inp, "obs_a": repr(a)[:300], "obs_b": repr(b)[:300]}
+                        break
+                if res["viol"]:
+                    break
+        for P in built:
+            if P.get("wd"):
+                shutil.rmtree(P["wd"], ignore_errors=True)
+        return res
+
+    with ThreadPoolExecutor(max_workers=common.NCPU) as ex:
+        cres = list(ex.map(cjob, cjobs))
+    for r in cres:
+        if r["viol"]:
+            nbad += 1
+            ctx.violation("c-level:%s:%s" % (r["viol"]["kind"], r["name"]), "binaries of one program built at different -O levels behave differently: %s" % json.dumps(r["viol"])[:500],
+                          {"program": r["src"], "detail": r["viol"]})
+    ctx.coverage["c_level_differential_runs"] = sum(r["runs"] for r in cres)
     # kernel-checked certificates for a sample of small pairs
     small = [x for x in pairs if len(x[3]["states"]) <= 30 and x[5] == "strict"]
     rng.shuffle(small)
     items = []
-    for i, (name, v, src, m0, m1, kind, base) in enumerate(small[:20 if quick else 100]):
+    for i, (name, v, src, m0, m1, kind, base, I) in enumerate(small[:20 if quick else 100]):
         items.append(("%s %s" % (name, " ".join(v)),
                       ["Definition a_%d : dfa := %s." % (i, export.coq_dfa(m0)), "Definition b_%d : dfa := %s." % (i, export.coq_dfa(m1))],
                       "dfa_equiv_cert a_%d b_%d" % (i, i), "dfa_equiv_cert_sound a_%d b_%d" % (i, i)))
